@@ -248,8 +248,10 @@ def run_check(pid, tier, seed, procs):
         "violations": sum(agg["mech_counts"].get(v["mechanism"], 1)
                           for v in {v["mechanism"]: v for v in new_viol}.values()),
     }
-    os.makedirs(os.path.join(VERIF, "evidence"), exist_ok=True)
-    with open(os.path.join(VERIF, "evidence", f"{pid}.json"), "w") as f:
+    # (a self-test run against a scratch tree must not overwrite the evidence of /repo)
+    evdir = "evidence" if os.environ.get("VF_REPO", "/repo") == "/repo" else "evidence-scratch"
+    os.makedirs(os.path.join(VERIF, evdir), exist_ok=True)
+    with open(os.path.join(VERIF, evdir, f"{pid}.json"), "w") as f:
         json.dump(evidence, f, indent=1, sort_keys=True)
 
     for m, (k, n, v) in sorted(known_hits.items()):
